@@ -480,6 +480,41 @@ def gen_track(defs):
     emit(defs, 'gen_go_start_bad', to_global)
 
 
+# ======================================================================================== get_pileup
+def gen_pileup(tree, defs):
+    """intervals.py get_pileup: the empty-set test and result, and the hand-over to npstructures (skeleton);
+    genomic_intervals.py GenomicIntervalsFull.get_pileup: shift to global coordinates, flat pileup, wrap (skeleton)."""
+    def pu():
+        fn = find_function(tree, 'get_pileup')
+        stmts = [s for s in fn.body if not (isinstance(s, ast.Expr) and isinstance(s.value, ast.Constant))]
+        if len(stmts) != 3 or not isinstance(stmts[0], ast.If) or stmts[0].orelse or not isinstance(stmts[1], ast.Assign) \
+                or not isinstance(stmts[2], ast.Return):
+            raise Unsupported('get_pileup: body is not `if ...: return ...; rla = ...; return ...`')
+        br = stmts[0]
+        ret = only([x for x in br.body if isinstance(x, ast.Return)], 'get_pileup: return in the empty branch')
+        if len(br.body) != 1:
+            raise Unsupported('get_pileup: the empty branch is not a single return')
+        c = call_of(ret.value, 'GenomicRunLengthArray', 2, 'get_pileup: empty-branch result')
+        ev = call_of(c.args[0], 'np.array', 1, 'empty-branch events')
+        va = call_of(c.args[1], 'np.array', 1, 'empty-branch values')
+        k = K(fn, {'len(intervals)': 'n_intervals', 'chromosome_size': 'size'})
+        if src_of(stmts[1].targets[0]) != 'rla':
+            raise Unsupported('get_pileup: second statement does not assign rla')
+        return (k.bdef('gen_pu_is_empty', ['n_intervals'], br.test) + '\n'
+                + k.ldef('gen_pu_empty_events', ['size'], ev.args[0]) + '\n' + k.ldef('gen_pu_empty_values', [], va.args[0]) + '\n'
+                + strlist_def('gen_pu_shape', [src_of(c.func) + '(events, values)', src_of(stmts[1].value), src_of(stmts[2].value)]))
+    emit(defs, 'gen_pu_is_empty', pu)
+
+    def gpu():
+        gi = parse('bionumpy/genomic_data/genomic_intervals.py')
+        fn = find_function(gi, 'GenomicIntervalsFull.get_pileup')
+        stmts = [s for s in fn.body if not (isinstance(s, ast.Expr) and isinstance(s.value, ast.Constant))]
+        if len(stmts) != 2 or not isinstance(stmts[0], ast.Assign) or src_of(stmts[0].targets[0]) != 'go' or not isinstance(stmts[1], ast.Return):
+            raise Unsupported('GenomicIntervalsFull.get_pileup: body is not `go = ...; return ...`')
+        return strlist_def('gen_gpu_shape', [src_of(stmts[0].value), ' '.join(src_of(stmts[1].value).split())])
+    emit(defs, 'gen_gpu_shape', gpu)
+
+
 def gen():
     rel = 'bionumpy/arithmetics/intervals.py (+ genomic_data/genomic_track.py, genomic_data/global_offset.py)'
     try:
@@ -491,4 +526,5 @@ def gen():
     gen_from_intervals(tree, defs)
     gen_to_array(tree, defs)
     gen_track(defs)
+    gen_pileup(tree, defs)
     return rel, defs
